@@ -423,6 +423,8 @@ def r16_4(rep: Report, idx: Index, cg: CallGraph) -> None:
                 cname_ = norm(s.target)
                 key = re.sub(rf'(?<![\w.]){re.escape(cname_)}(?![\w])', '<counter>',
                              f'while {short(loop.test, 40)}: {norm(s)}')
+                # a local of an inlined helper (`period__create_period_at`) is the local it was in the helper
+                key = re.sub(r'\b([A-Za-z]\w*?)_{2,3}[a-z]\w*\b', r'\1', key)
                 ok, why = _positive(s.value, loop, f.node)
                 if ok:
                     rep.ok(rid, f.construct(), key, why)
